@@ -233,6 +233,60 @@ fn sets_of(m: &quil_rs::program::MemoryAccesses) -> Mem {
     Mem { r: m.reads.iter().cloned().collect(), w: m.writes.iter().cloned().collect(), c: m.captures.iter().cloned().collect() }
 }
 
+/// body instructions for the definition layer: every access kind alone (capture-only, read-only,
+/// write-only, nothing) so that a union that drops one set is visible
+const C27_BODY: &[&str] = &[
+    "X 0",
+    "MEASURE 0 a",
+    "MEASURE 0",
+    "CAPTURE 0 \"f\" flat(duration: 1.0, iq: 1.0) b",
+    "CAPTURE 0 \"f\" flat(duration: 1.0, iq: c) b",
+    "RAW-CAPTURE 0 \"f\" 1.0 c",
+    "MOVE a 1",
+    "MOVE a b",
+    "RX(c) 0",
+    "SHIFT-PHASE 0 \"f\" b",
+    "NOP",
+];
+const C27_DEFS: &[&str] = &["DEFCAL G 0:", "DEFCAL G(c) 0:", "DEFCIRCUIT G:", "DEFCAL MEASURE 0 addr:", "DEFCAL MEASURE 0:"];
+
+/// a definition's accesses = reads of its head parameters + union over its body instructions
+fn c27_check_def(head: &str, body: &[&str]) -> Option<Vec<(String, String)>> {
+    let text = format!("{head}\n{}", body.iter().map(|b| format!("    {b}\n")).collect::<String>());
+    let p = Program::from_str(&text).ok()?;
+    let defs = p.to_instructions();
+    if defs.len() != 1 {
+        return None;
+    }
+    let mut want = Mem::default();
+    if head.contains("(c)") {
+        want.r.insert("c".to_string());
+    }
+    for b in body {
+        let m = ref_mem(&Instruction::from_str(b).ok()?)?;
+        want.r.extend(m.r);
+        want.w.extend(m.w);
+        want.c.extend(m.c);
+    }
+    let empty = ExternSignatureMap::try_from(Program::new().extern_pragma_map.clone()).ok()?;
+    let got = match catch(|| DefaultHandler.memory_accesses(&empty, &defs[0])) {
+        Err(p) => return Some(vec![("panic".into(), p)]),
+        Ok(Err(e)) => return Some(vec![("error".into(), format!("{e:?}"))]),
+        Ok(Ok(m)) => sets_of(&m),
+    };
+    let mut out = vec![];
+    if got.r != want.r {
+        out.push(("def-reads".to_string(), format!("reads {:?}, expected {:?}", got.r, want.r)));
+    }
+    if got.w != want.w {
+        out.push(("def-writes".to_string(), format!("writes {:?}, expected {:?}", got.w, want.w)));
+    }
+    if got.c != want.c {
+        out.push(("def-captures".to_string(), format!("captures {:?}, expected {:?}", got.c, want.c)));
+    }
+    Some(out)
+}
+
 fn c27_check_text(t: &str) -> Option<Vec<(String, String)>> {
     let i = Instruction::from_str(t).ok()?;
     let want = ref_mem(&i)?;
@@ -565,7 +619,7 @@ pub static C27: PropDef = PropDef {
     id: "C27",
     level: "exploration",
     engine: "sweep",
-    rule: "every executable instruction form over regions {a,b,c}: each classical operator x destination x source (reference / literal), comparisons, LOAD/STORE, EXCHANGE/CONVERT, jumps, MEASURE, CAPTURE/RAW-CAPTURE/PULSE/gates/DELAY/SET-*/SHIFT-* with expressions containing 0-2 references; plus every CALL of arity <= 2 against generated extern signatures (types x mut x scalar/vector) x 15 argument forms built through Call::try_new. non-trivial = instruction that accesses memory / call that resolves",
+    rule: "every executable instruction form over regions {a,b,c}: each classical operator x destination x source (reference / literal), comparisons, LOAD/STORE, EXCHANGE/CONVERT, jumps, MEASURE, CAPTURE/RAW-CAPTURE/PULSE/gates/DELAY/SET-*/SHIFT-* with expressions containing 0-2 references; plus the definitions DEFCAL (with and without a head parameter reading memory) / DEFCIRCUIT / DEFCAL MEASURE (with and without target) x every body of 1-3 instructions from an 11-item menu in which each access kind occurs alone (capture-only, read-only, write-only, none): accesses = head parameter reads + union over the body; plus every CALL of arity <= 2 against generated extern signatures (types x mut x scalar/vector) x 15 argument forms built through Call::try_new. non-trivial = instruction that accesses memory / call that resolves",
     assumptions: &["reference access table mc/src/refm.rs ref_mem written from the property statement; for CALL whether the return slot is also read is left open (accepted either way)"],
     run: |ctx| {
         let cases = c27_cases(ctx.tier);
@@ -589,10 +643,38 @@ pub static C27: PropDef = PropDef {
                 }
             }
         }
+        // definitions: DEFCAL / DEFCIRCUIT / DEFCAL MEASURE with every body of 1-3 instructions
+        for head in C27_DEFS {
+            for len in 1..=3 {
+                sequences(C27_BODY.len(), len, |s| {
+                    let body: Vec<&str> = s.iter().map(|k| C27_BODY[*k]).collect();
+                    if !ctx.take(|| json!({"definition": head, "body": body})) {
+                        return;
+                    }
+                    match c27_check_def(head, &body) {
+                        None => ctx.outcome("definition:skipped(parse)"),
+                        Some(vs) => {
+                            ctx.nontrivial(&(head, s));
+                            ctx.outcome("definition:checked");
+                            for (clause, detail) in vs {
+                                let fails = |x: &[usize]| !x.is_empty() && c27_check_def(head, &x.iter().map(|k| C27_BODY[*k]).collect::<Vec<_>>()).map(|v| v.iter().any(|(c, _)| *c == clause)).unwrap_or(false);
+                                let small = shrink_idx(s.to_vec(), &fails);
+                                let sb: Vec<&str> = small.iter().map(|k| C27_BODY[*k]).collect();
+                                ctx.report(viol(&clause, format!("C27:{clause}:{head} {}", sb.join("; ")), json!({"definition": head, "body": sb}), format!("`{head}` with body {:?}: {detail}", body)));
+                            }
+                        }
+                    }
+                });
+            }
+        }
         enumerate_calls(ctx, "C27", true);
     },
     replay: |c| {
-        if let Some(t) = c["instruction"].as_str() {
+        if let Some(head) = c["definition"].as_str() {
+            let body = strs(&c["body"]);
+            let b: Vec<&str> = body.iter().map(|x| x.as_str()).collect();
+            c27_check_def(head, &b).unwrap_or_default().into_iter().map(|(cl, d)| viol(&cl, format!("C27:{cl}:{head} {}", b.join("; ")), c.clone(), d)).collect()
+        } else if let Some(t) = c["instruction"].as_str() {
             let Ok(i) = Instruction::from_str(t) else { return vec![] };
             c27_check_text(t).unwrap_or_default().into_iter().map(|(cl, d)| viol(&cl, format!("C27:{cl}:{}", kind_of(&i)), c.clone(), d)).collect()
         } else if let Some(case) = parse_call_case(c) {
